@@ -28,6 +28,17 @@ search       prefix of every OBSERVED raw trace x {drop-all, entries-early, root
              the acknowledged one.  Sensitivity self-test: with an fsync dropped or the pointer
              written before the metadata file (runtime mutations of the library) the oracle must
              produce a concrete crash prefix, otherwise the check fails.
+Faults     : one fault per run at EVERY durability call of the fault scenarios (temp creation, write, the
+             descriptor opened for an fsync, fsync, rename; files and directories): OSError(EIO) instead of the
+             call, and for every write also a POSIX short write.  The library must either abort the operation
+             (nothing acknowledged, pointer not advanced) or complete it whole: the same power-loss oracle judges
+             every prefix of what it did next and the durability of what it acknowledged; the replay is
+             {steps, fault index/kind, crash prefix}.  Faults on a DIRECTORY descriptor / fsync are tolerated by
+             the library by design (DESIGN.md C16 "Not in the model"): evaluated and counted, not reported.
+             Fault runs that hit a publish inside append_data are also compared with the model (op OFail).
+Bounded    : every in-process run happens in a worker subprocess (harness/lib/c16_worker.py) with a wall-clock
+             alarm, an address-space limit and a progress watchdog; a hang / crash / memory blow-up of the library
+             is reported as a violation with its input (key operation-not-bounded:*), never a stuck check.
 """
 from __future__ import annotations
 
@@ -38,7 +49,7 @@ import sys
 import time
 from typing import Any, Dict, List, Optional, Tuple
 
-from harness.lib import coqbuild, ostrace, powerloss, c16_driver
+from harness.lib import coqbuild, ostrace, powerloss, c16_driver, c16_worker
 
 LEVEL = "proof"
 THEOREMS = ["C16_durable_prefix", "C16_acked_durable", "C16_each_publish", "C16_publish_data_same", "C16_disciplined_safe"]
@@ -52,7 +63,8 @@ MANIFEST_ENTRY = {
                   "publish call sequences regenerated from write_file / DataFileWriter on every run; the model's traces are "
                   "tied to the code by equality with the observed OS-call traces (in-process interception and strace), the "
                   "observed traces themselves are checked against the proved publish discipline, and an independent "
-                  "power-loss evaluator + reader replays every prefix of every observed trace",
+                  "power-loss evaluator + reader replays every prefix of every observed trace, also with one OS fault "
+                  "(EIO or short write) injected at each durability call",
     "level_note": "trusted: Coq kernel; the POSIX-strict power-loss model (fsync = barrier for one inode, directory fsync = "
                   "barrier for that directory's entries); translator/gen_durable.py; the tracers and the canonicaliser; "
                   "directory creation (makedirs), the table root's own entry and a swallowed OSError from a directory "
@@ -105,8 +117,10 @@ class Case:
     """One scenario run: raw trace, canonical trace, and the model's `ops` rebuilt from the files."""
 
     def __init__(self, steps: List[Any], mode: str, raw: List[Dict[str, Any]], results: List[Dict[str, Any]], root: str,
-                 reader: powerloss.Reader):
+                 reader: powerloss.Reader, fault: Optional[Dict[str, Any]] = None, faultlog: Optional[List[Dict[str, Any]]] = None,
+                 error: Optional[str] = None):
         self.steps, self.mode, self.raw, self.results, self.root = steps, mode, raw, results, os.path.realpath(root)
+        self.fault, self.faultlog, self.error = fault, faultlog or [], error
         self.reader = reader
         self.namer = ostrace.Namer()
         self.can = ostrace.canonicalise(raw, root, self.namer, self.tokens_for)
@@ -138,6 +152,10 @@ class Case:
             for p in mine:
                 by_kind.setdefault(powerloss.kind_of(p["rel"]), []).append(p)
             metas, ptrs = by_kind.get("metadata", []), by_kind.get("pointer", [])
+            if not metas and not ptrs and set(by_kind) <= {"marker", "data"} and not res.get("ok") and res.get("rolled_back") \
+                    and not res.get("aborted"):
+                self._failed_append(i, res, lo, hi, by_kind)
+                continue
             if not metas and not ptrs and set(by_kind) <= {"marker", "data"} and res.get("aborted"):
                 # a rolled-back transaction: marker + data file pairs, all unlinked again
                 markers = {os.path.basename(p["rel"])[: -len(".inflight")]: p for p in by_kind.get("marker", [])}
@@ -182,6 +200,48 @@ class Case:
                 continue
             self.ops.append(commit)
 
+    def _failed_append(self, i: int, res: Dict[str, Any], lo: int, hi: int, by_kind: Dict[str, List[Dict[str, Any]]]) -> None:
+        """A transaction whose append_data raised and that was rolled back: model op OFail its mk fl k.
+        its = the (marker, data file) pairs completed before; the failing publish is the temp that was
+        created but never renamed (k = how many of Create / Write / Fsync it got), or nothing at all (k = 0)."""
+        calls = self.calls[lo:hi]
+        renamed = {c[1] for c in calls if c[0] == "Rename"}
+        orphans = [c[1] for c in calls if c[0] == "Create" and c[1] not in renamed]
+        markers = {os.path.basename(p["rel"])[: -len(".inflight")]: p for p in by_kind.get("marker", [])}
+        data_order = [d.lstrip("/") for d in res.get("data_files", [])]
+        datas = sorted(by_kind.get("data", []), key=lambda p: data_order.index(p["rel"]) if p["rel"] in data_order else 10**6)
+        its = []
+        for f in datas:
+            m = markers.pop(os.path.basename(f["rel"]), None)
+            if m is None:
+                self.problems.append(f"step {i}: {f['rel']} published without a marker")
+                return
+            its.append({"marker": self.pub(m), "file": self.pub(f)})
+        if len(orphans) > 1 or len(markers) > 1:
+            self.problems.append(f"step {i}: failed append with {len(orphans)} unfinished temps and {len(markers)} unpaired markers")
+            return
+        if orphans:
+            t = orphans[0]
+            mine = [c for c in calls if c[0] in ("Create", "Write", "Fsync") and c[1] == t]
+            k = len(mine)
+            content = next((c[2] for c in mine if c[0] == "Write"), [("Raw", 1)])
+            failing = (("P", t[1], t[2]), content)
+        else:
+            k = 0
+            d, n = self.namer.fresh("data" if markers else "metadata/inflight")
+            failing = (("P", d, n), [("Raw", 1)])
+        if markers:                                   # the marker was published, the data file's publish failed
+            mk = self.pub(list(markers.values())[0])
+            if failing[0][1] != self.namer.dir("data"):
+                self.problems.append(f"step {i}: unpaired marker but the unfinished temp is not a data file")
+                return
+            self.ops.append({"fail": its, "mk": mk, "fl": failing, "k": k, "step": i})
+        else:                                         # the marker's own publish failed
+            if failing[0][1] != self.namer.dir("metadata/inflight"):
+                self.problems.append(f"step {i}: failed append: unfinished temp {failing[0]} is neither a marker nor follows one")
+                return
+            self.ops.append({"fail": its, "mk": failing, "fl": None, "k": k, "step": i})
+
     def pub(self, p: Dict[str, Any]) -> Tuple[Any, List[Any]]:
         return (p["cpath"], self.tokens_for(p["rel"], p["bytes"]))
 
@@ -194,6 +254,7 @@ class Case:
             return "[" + "; ".join(f"mkItem {pub(it['marker'])} {pub(it['file'])}" for it in l) + "]"
         return "[" + "; ".join(
             f"OAbort {items(c['abort'])}" if "abort" in c else
+            (f"OFail {items(c['fail'])} {pub(c['mk'])} " + ("None" if c["fl"] is None else f"(Some {pub(c['fl'])})") + f" {c['k']}%nat") if "fail" in c else
             f"OCommit (mkCommit {items(c['data'])} {items(c['manifests'])} {items(c['list'])} {pub(c['meta'])} {ostrace.tokens_coq(c['ptr'])})"
             for c in self.ops) + "]"
 
@@ -311,40 +372,165 @@ def report_violations(ctx, case: Case, viol: List[Dict[str, Any]], mutation: Opt
         c2 = make_case(ctx, steps, case.mode, mutation)
         return bool(powerloss.sweep(c2.raw, c2.root, c2.reader)[0])
     steps = case.steps
-    if mutation is None and len(case.steps) > 2:
+    fault = case.fault
+    if mutation is None and fault is None and len(case.steps) > 2:
         steps = shrink_steps(ctx, case.steps, case.mode, mutation, still_fails)
         if steps != case.steps:
             c2 = make_case(ctx, steps, case.mode, mutation)
             v2, _ = powerloss.sweep(c2.raw, c2.root, c2.reader)
             if v2:
                 case, v = c2, min(v2, key=pick)
+    if fault is not None and mutation is None:
+        # shrink: the steps after the one the fault hit are not needed (earlier calls, hence the fault index, are unchanged)
+        j = None
+        for ev in case.raw:
+            if ev["op"] == "mark":
+                if ev["label"].endswith(":begin"):
+                    j = int(ev["label"].split(":")[0])
+                elif ev["label"].startswith("fault:"):
+                    break
+        if j is not None and j + 1 < len(case.steps):
+            c2 = make_case(ctx, case.steps[: j + 1], case.mode, None, fault)
+            if not c2.error:
+                v2, _ = powerloss.sweep(c2.raw, c2.root, c2.reader, outcomes=["drop_all", "entries_early"])
+                v2 += [{"prefix": a["prefix"], "outcome": "drop_all", "problems": [dict(a, problem="acknowledged commit not durable")]} for a in ack_check(c2)]
+                if v2:
+                    case, v, steps, viol = c2, min(v2, key=pick), c2.steps, v2
     prob = v["problems"][0]
     key = f"pointer-outruns-data:{prob.get('problem', '?').split(' ')[0]}:{powerloss.kind_of(prob.get('file', '')) if prob.get('file') else 'pointer'}"
+    fdesc = None
+    if fault is not None:
+        fdesc = next((f for f in case.faultlog if f.get("injected")), None)
+        if fdesc is not None:
+            key += f":after-failed-{fdesc['call']}-of-{powerloss.kind_of(_final_guess(fdesc['path']))}"
     trace_txt = powerloss.describe_trace(case.raw, case.root)
     n = v["prefix"] or 0
     what = (f"power loss after call #{n} ({v.get('last_call')}) under outcome {v['outcome']}: the surviving pointer references "
             f"{prob.get('file')} which is {prob.get('problem')} ({prob.get('detail', '')}) -- scenario {steps}, tracer {case.mode}")
-    ctx.violation(key, what, {"steps": steps, "mode": case.mode, "mutation": mutation, "prefix": n, "outcome": v["outcome"],
+    if fdesc is not None:
+        what += (f"; injected fault: durability call #{fdesc['i']} ({fdesc['call']} of {fdesc['path']}, in {fdesc['module']}) raised OSError(EIO) "
+                 f"and the library went on to acknowledge: steps ok = {[r.get('ok') for r in case.results]}")
+    ctx.violation(key, what, {"steps": steps, "mode": case.mode, "mutation": mutation, "fault": fault, "fault_call": fdesc,
+                              "prefix": n, "outcome": v["outcome"],
                               "schedule": v.get("schedule"), "problems": v["problems"],
                               "trace_up_to_crash": trace_txt[max(0, n - 12):n], "violating_prefixes": len(viol)})
+
+
+def _final_guess(rel: str) -> str:
+    """table-relative path of the file a temp name belongs to (for the violation key only)."""
+    d, b = os.path.dirname(rel), os.path.basename(rel)
+    if b.startswith("<temp>"):
+        b = b[len("<temp>"):].lstrip(".")
+    elif b.startswith(".tmp.") and b.count(".") >= 3:
+        b = b.split(".", 3)[3]
+    elif b.startswith("tmp") and b.endswith(".parquet"):
+        b = "auto_x.parquet"
+    return os.path.join(d, b) if d else b
+
+
+def report_unbounded(ctx, case: Case) -> None:
+    """A library operation that hangs, exhausts memory or kills the worker is a reported violation with its input."""
+    fdesc = next((f for f in case.faultlog if f.get("injected")), None)
+    ctx.violation("operation-not-bounded:" + case.error.split(":")[0].replace(" ", "-"),
+                  f"scenario {case.steps} (tracer {case.mode}, fault {case.fault}) did not complete: {case.error}",
+                  {"steps": case.steps, "mode": case.mode, "mutation": getattr(case, "mutation", None), "fault": case.fault,
+                   "fault_call": fdesc, "error": case.error, "steps_completed": [r.get("ok") for r in case.results]})
 
 
 _SEQ = [0]
 
 
-def make_case(ctx, steps: List[Any], mode: str, mutation: Optional[str] = None) -> Case:
-    _SEQ[0] += 1
-    root = os.path.join(ctx.scratch, f"t{_SEQ[0]}")
-    if mode == "strace":
-        raw, results = run_strace(ctx, root, steps, mutation)
-    else:
-        raw, results = run_inproc(root, steps, mutation)
-    case = Case(steps, mode, raw, results, root, READER)
-    shutil.rmtree(root, ignore_errors=True)
-    return case
+def make_cases(ctx, specs: List[Dict[str, Any]]) -> List[Case]:
+    """Run scenario specs {"steps", "mode", "mutation"?, "fault"?} and return their Cases, in order.
+    In-process runs go through bounded worker subprocesses (harness/lib/c16_worker.py): wall-clock alarm,
+    address-space limit, the parent kills a worker without progress; strace runs have their own timeout.
+    A run that hangs / dies yields a Case with .error set (and whatever trace was recorded)."""
+    jobs, out = [], {}
+    for k, sp in enumerate(specs):
+        _SEQ[0] += 1
+        root = os.path.join(ctx.scratch, f"t{_SEQ[0]}")
+        sp = dict(sp, root=root, id=f"j{_SEQ[0]}")
+        specs[k] = sp
+        if sp.get("mode", "inproc") == "strace":
+            try:
+                raw, results = run_strace(ctx, root, sp["steps"], sp.get("mutation"))
+                out[sp["id"]] = {"events": raw, "results": results, "faultlog": []}
+            except Exception as e:  # timeout / driver crash
+                out[sp["id"]] = {"error": f"{type(e).__name__}: {e}"[:500]}
+            shutil.rmtree(root, ignore_errors=True)
+        else:
+            jobs.append({"id": sp["id"], "root": root, "steps": sp["steps"], "mutation": sp.get("mutation"), "fault": sp.get("fault")})
+    out.update(c16_worker.run_jobs(ctx.scratch, jobs, nworkers=int(os.environ.get("C16_WORKERS", "8"))))
+    cases = []
+    for sp in specs:
+        r = out.get(sp["id"], {"error": "no result"})
+        results = r.get("results")
+        if results is None:
+            results = [{"step": st, "ok": False, "data_files": [], "error": "not completed"} for st in sp["steps"]]
+        cases.append(Case(sp["steps"], sp.get("mode", "inproc"), r.get("events", []), results, sp["root"], READER,
+                          fault=sp.get("fault"), faultlog=r.get("faultlog"), error=r.get("error")))
+        cases[-1].mutation = sp.get("mutation")
+    return cases
+
+
+def make_case(ctx, steps: List[Any], mode: str, mutation: Optional[str] = None, fault: Optional[Dict[str, Any]] = None) -> Case:
+    return make_cases(ctx, [{"steps": steps, "mode": mode, "mutation": mutation, "fault": fault}])[0]
 
 
 READER = powerloss.Reader()
+
+
+# ------------------------------------------------------------------------------------------ faults
+FAULT_SCENARIOS: List[List[Any]] = [
+    [["create"], ["append", 3], ["delete_append", 0, 2], ["append", 1]],
+    [["create"], ["multi", [2, 1]], ["expire"], ["abort", [1]], ["delete_snapshot", 0], ["append", 2]],
+    [["create"], ["append", 2], ["append_expire", 1], ["delete", 0], ["reopen"], ["append", 1]],
+]
+
+
+def is_dir_sync_fault(f: Dict[str, Any]) -> bool:
+    """open / fsync of a DIRECTORY: the library tolerates its failure by design ("directory fsync not
+    supported - acceptable"; DESIGN.md C16 'Not in the model'), so these faults are evaluated but only counted."""
+    return bool(f.get("isdir")) and f["call"] in ("open", "fsync")
+
+
+def oracle_faults(ctx, scenarios: List[List[Any]]) -> List[Case]:
+    probes = make_cases(ctx, [{"steps": s, "mode": "inproc"} for s in scenarios])
+    specs = []
+    for pc in probes:
+        if pc.error:
+            report_unbounded(ctx, pc)
+            continue
+        for f in pc.faultlog:
+            specs.append({"steps": pc.steps, "mode": "inproc", "fault": {"index": f["i"]}, "_expect": f})
+            if f["call"] == "write":     # the same call, as a POSIX short write (fewer bytes transferred, reported in the return value)
+                specs.append({"steps": pc.steps, "mode": "inproc", "fault": {"index": f["i"], "kind": "short_write"}, "_expect": f})
+    fcases = make_cases(ctx, specs)
+    stats = {"scenarios": len(probes), "durability_calls": len(specs), "by_call": {}, "aborted_cleanly": 0, "swallowed_and_acknowledged": 0,
+             "dir_sync_faults_tolerated_by_design": 0, "dir_sync_faults_with_violating_prefixes": 0, "not_injected": 0}
+    for sp, fc in zip(specs, fcases):
+        if fc.error:
+            report_unbounded(ctx, fc)
+            continue
+        inj = next((f for f in fc.faultlog if f.get("injected")), None)
+        if inj is None:
+            stats["not_injected"] += 1
+            continue
+        k = f"{inj['call']}:{'dir' if inj['isdir'] else powerloss.kind_of(_final_guess(inj['path']))}"
+        stats["by_call"][k] = stats["by_call"].get(k, 0) + 1
+        all_ok = all(r.get("ok") for r in fc.results)
+        stats["swallowed_and_acknowledged" if all_ok else "aborted_cleanly"] += 1
+        viol, evals = powerloss.sweep(fc.raw, fc.root, fc.reader, outcomes=["drop_all", "entries_early"])
+        ctx.count(evals, ("fault", json.dumps(fc.steps), inj["i"]))
+        for a in ack_check(fc):
+            viol.append({"prefix": a["prefix"], "outcome": "drop_all", "problems": [dict(a, problem="acknowledged commit not durable")]})
+        if is_dir_sync_fault(inj):
+            stats["dir_sync_faults_tolerated_by_design"] += 1
+            stats["dir_sync_faults_with_violating_prefixes"] += 1 if viol else 0
+            continue
+        report_violations(ctx, fc, viol, None)
+    ctx.stats["fault_injection"] = stats
+    return fcases
 
 
 # ------------------------------------------------------------------------------------------ scenarios
@@ -374,7 +560,7 @@ def random_scenario(rng, maxlen: int) -> List[Any]:
 
 
 # ------------------------------------------------------------------------------------------ correspondence
-def corr_model(ctx, cases: List[Case]) -> None:
+def corr_model(ctx, cases: List[Case], prefix: str = "") -> None:
     exprs: List[str] = []
     for c in cases:
         exprs.append(f"trace_of {c.ops_coq()}")
@@ -386,6 +572,8 @@ def corr_model(ctx, cases: List[Case]) -> None:
         model_trace = [ostrace.call_from_coq(t) for t in got[3 * k]]
         obs = c.calls_nomkdir()
         info = {"steps": c.steps, "tracer": c.mode}
+        if c.fault is not None:
+            info["fault"] = next((f for f in c.faultlog if f.get("injected")), c.fault)
         if c.problems or c.can["unknown"]:
             bad_t.append(dict(info, canonicaliser_problems=c.problems[:4], calls_outside_alphabet=c.can["unknown"][:4]))
         elif model_trace != obs:
@@ -396,10 +584,10 @@ def corr_model(ctx, cases: List[Case]) -> None:
         if disc is not True:
             idx = fb.x if hasattr(fb, "x") else fb
             bad_d.append(dict(info, first_bad_call=idx, call=repr(c.calls[idx]) if isinstance(idx, int) and idx < len(c.calls) else None))
-        ctx.count(1, ("trace", c.mode, json.dumps(c.steps)))
-    ctx.correspondence("trace", len(cases), bad_t)
-    ctx.correspondence("wf", len(cases), bad_w)
-    ctx.correspondence("disciplined", len(cases), bad_d)
+        ctx.count(1, ("trace", c.mode, json.dumps(c.steps), json.dumps(c.fault)))
+    ctx.correspondence(prefix + "trace", len(cases), bad_t)
+    ctx.correspondence(prefix + "wf", len(cases), bad_w)
+    ctx.correspondence(prefix + "disciplined", len(cases), bad_d)
 
 
 def tree_tokens(case: Case, fs: powerloss.PLFS, paths: List[Any], rel_of: Dict[Any, str]) -> List[Any]:
@@ -514,7 +702,8 @@ def corr_schedules(ctx, cases: List[Case], per_case: int) -> None:
 def run(ctx) -> None:
     ctx.rule = ("scenarios = fixed list covering create / append / multi-append / delete_files / expire / delete_snapshot + seeded "
                 "random histories; a case is distinct by (tracer, step list); oracle evaluations = (prefix, outcome) pairs of the "
-                "observed raw traces judged by the independent reader")
+                "observed raw traces judged by the independent reader; fault class = one OSError(EIO) at each durability call "
+                "(temp creation / write / fsync descriptor / fsync / rename) of the fault scenarios, one run per call")
     ctx.trusted_base += [
         "translator/gen_durable.py (ast walk of write_file / DataFileWriter.open+close -> call sequence; golden order of the commit steps)",
         "power-loss model of coq/Model/Durable.v: fsync(file) persists that inode's content, fsync(dir) persists that directory's "
@@ -538,18 +727,22 @@ def run(ctx) -> None:
     strace_scen = BASE_SCENARIOS[1:3] if quick else BASE_SCENARIOS + scen[len(BASE_SCENARIOS):len(BASE_SCENARIOS) + 10]
 
     t0 = time.time()
-    cases: List[Case] = []
-    for s in scen:
-        cases.append(make_case(ctx, s, "inproc"))
+    cases = make_cases(ctx, [{"steps": s, "mode": "inproc"} for s in scen])
     ctx.stats["inproc_scenarios"] = len(cases)
     ctx.stats["inproc_run_s"] = round(time.time() - t0, 1)
     t0 = time.time()
-    scases: List[Case] = []
-    for s in strace_scen:
-        scases.append(make_case(ctx, s, "strace"))
+    scases = make_cases(ctx, [{"steps": s, "mode": "strace"} for s in strace_scen])
     ctx.stats["strace_scenarios"] = len(scases)
     ctx.stats["strace_run_s"] = round(time.time() - t0, 1)
+    for c in cases + scases:
+        if c.error:
+            report_unbounded(ctx, c)
+    cases = [c for c in cases if not c.error]
+    scases = [c for c in scases if not c.error]
     allc = cases + scases
+    if len(allc) < 2:
+        ctx.proof_problems.append("no scenario completed")
+        return
     ctx.stats["raw_events"] = sum(len(c.raw) for c in allc)
     ctx.stats["canonical_calls"] = sum(len(c.calls) for c in allc)
     ctx.stats["commits_modelled"] = sum(1 for c in allc for o in c.ops if "abort" not in o)
@@ -568,6 +761,13 @@ def run(ctx) -> None:
         viol = oracle_case(ctx, c, nsched=2 if quick else 6)
         report_violations(ctx, c, viol, None)
     ctx.stats["oracle_s"] = round(time.time() - t0, 1)
+
+    # ---- fault class: OSError at EVERY durability call (temp creation, write, descriptor for fsync, fsync,
+    #      rename) of every operation type, one fault per run; the power-loss oracle judges every prefix of
+    #      what the library did next and whether what it acknowledged is durable
+    t0 = time.time()
+    fault_cases = oracle_faults(ctx, FAULT_SCENARIOS[:2] if quick else FAULT_SCENARIOS + scen[len(BASE_SCENARIOS):len(BASE_SCENARIOS) + 6])
+    ctx.stats["faults_s"] = round(time.time() - t0, 1)
     ctx.stats["reader_parses"] = READER.parses
 
     # ---- sensitivity self-test of the oracle (runtime mutations of the library; never reported as violations)
@@ -597,6 +797,12 @@ def run(ctx) -> None:
     t0 = time.time()
     try:
         corr_model(ctx, allc)
+        # fault runs the model covers: the fault hit a publish inside append_data (OFail); commit-time failures leave
+        # orphan manifests whose data files the rollback unlinks -- outside the discipline, judged by the oracle only
+        modelled = [c for c in fault_cases if not c.error and not c.problems and not c.can["unknown"] and any("fail" in o for o in c.ops)]
+        ctx.stats["fault_runs_modelled_as_OFail"] = len(modelled)
+        ctx.stats["fault_runs_outside_model"] = sum(1 for c in fault_cases if not c.error and c.problems)
+        corr_model(ctx, modelled if not quick else modelled[:40], prefix="fault-")
         corr_evaluator(ctx, (cases[:3] + scases[:1]) if quick else allc)
         corr_schedules(ctx, (cases[:6] + scases[:1]) if quick else allc, 2 if quick else 4)
         # tracers agree
@@ -619,7 +825,13 @@ def replay(ctx, payload) -> int:
     if "steps" not in case:
         print("replay: payload kind not replayable directly; re-run ./bin/check C16 thorough")
         return 2
-    c = make_case(ctx, case["steps"], case.get("mode", "inproc"), case.get("mutation"))
+    c = make_case(ctx, case["steps"], case.get("mode", "inproc"), case.get("mutation"), case.get("fault"))
+    if c.error:
+        print(f"replay: STILL FAILS: the scenario does not complete: {c.error}")
+        return 1
+    if "error" in case:
+        print("replay: the scenario completes now")
+        return 0
     sched = {int(k): [tuple(b) for b in v] for k, v in (case.get("schedule") or {}).items()} or None
     viol, _ = powerloss.sweep(c.raw, c.root, c.reader, schedule=sched)
     viol += [{"prefix": a["prefix"], "outcome": "drop_all", "problems": [dict(a, problem="acknowledged commit not durable")]} for a in ack_check(c)]
